@@ -280,6 +280,22 @@ def gen_cases(chk, n):
         yield {'doc': {'kind': 'text', 'settings': False, 'pics': [], 'thumb': None, 'kids': []}, 'base': gen_package(rng, sp)}
     yield {'doc': {'kind': 'text', 'settings': False, 'thumb': None, 'kids': [],
                    'pics': [{'how': 'file', 'data': '616263', 'mt': None, 'ext': '', 'relpath': u'd.//a'}]}, 'base': None}
+    # exhaustive matrix: picture kind x nesting depth of the object that owns it x thumbnail x settings x extras
+    for how in ('file', 'addpicture-file', 'string', 'named'):
+        for d in range(4):
+            for thumb in (None, '0102'):
+                for settings in (False, True):
+                    for with_base in (False, True):
+                        pic = {'how': how, 'data': '8950', 'mt': u'image/png', 'ext': '.png', 'name': u'Pictures/m.png'}
+                        doc = {'kind': 'text', 'settings': settings, 'pics': [pic], 'thumb': None, 'kids': []}
+                        for lvl in range(d):
+                            doc = {'kind': 'spreadsheet' if lvl % 2 else 'text', 'settings': settings, 'pics': [dict(pic)], 'thumb': None, 'kids': [doc]}
+                        doc['thumb'] = thumb
+                        base = None
+                        if with_base:
+                            base = gen_package(chk.rng.__class__(d * 7 + len(how)))
+                            doc['kind'] = base['kind']; doc['settings'] = False
+                        yield {'doc': doc, 'base': base}
     for i in range(n):
         base = None
         if rng.random() < 0.3:
@@ -294,6 +310,7 @@ def run(chk, replay=None):
     chk.rule = ('seeded random document trees (depth <= 4 levels, <= 3 objects per level, 0-3 pictures per document drawn from '
                 'addPictureFromFile / addPicture(file) / addPictureFromString / addPicture(name, type, bytes), thumbnail, settings on/off); '
                 '30% start from load() of a hand-made package with extras, directories, pictures, objects and a shuffled manifest; '
+                'plus the exhaustive matrix picture kind x owner depth 0..3 x thumbnail x settings x from-load (128 cases); '
                 'non-trivial = at least one embedded object or picture or extra')
     if replay is not None:
         bad, top, arch = run_case(chk, None, replay['input'], oracle_only=True)
